@@ -11,6 +11,12 @@ from .core import AnalysisError, FunctionInfo, call_name, const_str, dotted, unp
 
 
 # --------------------------------------------------------------------------- local single assignments
+def _mutable_init(v: ast.AST) -> bool:
+    # a local container is filled by method calls afterwards: its initialiser is not its value
+    return isinstance(v, (ast.List, ast.Dict, ast.Set, ast.ListComp, ast.DictComp, ast.SetComp)) or \
+        (isinstance(v, ast.Call) and call_name(v) in ("list", "dict", "set", "bytearray", "deque", "collections.deque"))
+
+
 def single_assignments(fn: ast.FunctionDef) -> dict[str, ast.AST]:
     """Locals bound exactly once by a plain `name = expr` (anywhere in the function, not augmented,
     not a loop target, not a parameter re-binding)."""
@@ -43,7 +49,7 @@ def single_assignments(fn: ast.FunctionDef) -> dict[str, ast.AST]:
                     counts[sub.id] = counts.get(sub.id, 0) + (1 if (val is not None and sub is t) else 2)
                     if val is not None and sub is t:
                         values[sub.id] = val
-    out = {k: v for k, v in values.items() if counts.get(k) == 1 and k not in params}
+    out = {k: v for k, v in values.items() if counts.get(k) == 1 and k not in params and not _mutable_init(v)}
     # `q, r = divmod(a, b)` binds q = a // b and r = a % b
     for n in walk_no_nested(fn, include_root=False):
         if isinstance(n, ast.Assign) and len(n.targets) == 1 and isinstance(n.targets[0], ast.Tuple) and len(n.targets[0].elts) == 2 \
@@ -77,8 +83,7 @@ def last_assignments(fn: ast.FunctionDef) -> dict[str, ast.AST]:
                             if isinstance(x, ast.Name):
                                 nested.add(x.id)
     for k, v in top.items():
-        if k not in nested and k not in params:
-            env.setdefault(k, v)
+        if k not in nested and k not in params and not _mutable_init(v):
             env[k] = v
     return env
 
